@@ -4,7 +4,9 @@ From Selene Require Export Corr.Common Std.Extend Std.ExtendSpec.
 Inductive case :=
 | CPair (d b impl : lib)
 | CChain (first : lib) (rest : list lib) (impl : lib)
-| CPlus (first : lib) (rest : list lib) (impl : lib).
+| CPlus (first : lib) (rest : list lib) (impl : lib)
+(* the CLI: `+` segments, each a base chain on disk; which of [names] undefined_variable reported *)
+| CCliNames (segments : list (lib * list lib)) (names : list string) (undefined : list string) (ran : bool).
 
 Definition opt_field_eqb (a b : option field) : bool :=
   if opt_eq_dec field_eq_dec a b then true else false.
@@ -59,6 +61,22 @@ Definition check_case (c : case) : N * N :=
            (forallb (fun k => opt_field_eqb (glookup k (l_globals impl))
                      (spec_plus_present (l_globals first) (map l_globals rest) k)) ks)
            true
+  | CCliNames segs names undefined ran =>
+      let libs := map (fun sg => resolve_chain (fst sg) (snd sg)) segs in
+      let is_some := fun (o : option field) => match o with Some _ => true | None => false end in
+      let strs_eqb := fix eqb (a b : list string) : bool :=
+                        match a, b with
+                        | [], [] => true
+                        | x :: r, y :: t => (if string_dec x y then true else false) && eqb r t
+                        | _, _ => false end in
+      match libs with
+      | [] => code false true true true
+      | l0 :: rest =>
+          let eff := plus_fold l0 rest in
+          let model_undef := List.filter (fun n => negb (is_some (present [n] (l_globals eff)))) names in
+          let spec_undef := List.filter (fun n => negb (is_some (spec_plus_present (l_globals l0) (map l_globals rest) [n]))) names in
+          code (ran && strs_eqb model_undef undefined) (forallb wf_lib libs) (strs_eqb spec_undef undefined) true
+      end
   end.
 
 Definition run := Common.run check_case.
